@@ -124,6 +124,20 @@ def time_limit(seconds: int):
             signal.alarm(max(1, left))
 
 
+@contextlib.contextmanager
+def cpu_limit(seconds: float):
+    """Per-case limit on the CPU time of this process (user time, so machine load does not matter): raises JobTimeout."""
+    def _h(signum: int, frame: Any) -> None:
+        raise JobTimeout()
+    old = signal.signal(signal.SIGVTALRM, _h)
+    signal.setitimer(signal.ITIMER_VIRTUAL, seconds)
+    try:
+        yield
+    finally:
+        signal.setitimer(signal.ITIMER_VIRTUAL, 0)
+        signal.signal(signal.SIGVTALRM, old)
+
+
 def _init(modname: str, tier: str) -> None:
     global _MOD, _TIER
     _MOD = importlib.import_module(modname)
